@@ -125,21 +125,21 @@ def singleOp (op : String) (sv : Val) (cs : List (Option Val)) : R Bool := do
     | some (m, h) => pure (!(!m && (h || !neg)))
 
 def leafOps : List String :=
-  ["$eq", "$ne", "$gt", "$gte", "$lt", "$lte", "$in", "$nin", "$exists"]
+  ["$eq", "$ne", "$gt", "$gte", "$lt", "$lte", "$in", "$nin", "$exists", "$size"]
 
 theorem applyKey_single (op : String) (sv : Val) (key : String) (d : Val)
     (hop : op ∈ leafOps) :
     applyKey (.doc [(op, sv)]) key d = (candsKey key d).bind (singleOp op sv) := by
   have hs : op.startsWith "$" = true := by
     simp only [leafOps, List.mem_cons, List.not_mem_nil, or_false] at hop
-    rcases hop with h | h | h | h | h | h | h | h | h <;> subst h <;> decide +kernel
+    rcases hop with h | h | h | h | h | h | h | h | h | h <;> subst h <;> decide +kernel
   have h1 : op ≠ "$all" := by intro e; subst e; simp [leafOps] at hop
   have h2 : op ≠ "$elemMatch" := by intro e; subst e; simp [leafOps] at hop
   have h3 : op ≠ "$not" := by intro e; subst e; simp [leafOps] at hop
   have h4 : op ≠ "$options" := by intro e; subst e; simp [leafOps] at hop
   have hck : checkUnknownOps [op] = .ok () := by
     simp only [leafOps, List.mem_cons, List.not_mem_nil, or_false] at hop
-    rcases hop with h | h | h | h | h | h | h | h | h <;> subst h <;> decide
+    rcases hop with h | h | h | h | h | h | h | h | h | h <;> subst h <;> decide
   have hpe : pyEq (Val.doc [(op, sv)]) (Val.doc [("$exists", Val.bool false)])
       = (decide (op = "$exists") && pyEq sv (Val.bool false)) := by
     by_cases h : op = "$exists"
@@ -180,6 +180,8 @@ theorem leafOp_gte (sv : Val) : leafOp "$gte" sv = fun dv => opCmp .gte dv sv :=
 theorem leafOp_lt (sv : Val) : leafOp "$lt" sv = fun dv => opCmp .lt dv sv := by
   funext dv; simp [leafOp, pure, Except.pure]
 theorem leafOp_lte (sv : Val) : leafOp "$lte" sv = fun dv => opCmp .lte dv sv := by
+  funext dv; simp [leafOp, pure, Except.pure]
+theorem leafOp_size (sv : Val) : leafOp "$size" sv = fun dv => Except.ok (opSize dv sv) := by
   funext dv; simp [leafOp, pure, Except.pure]
 
 theorem opNe_eq_not_opEq (dv : Option Val) (sv : Val) : opNe dv sv = !opEq dv sv := by
